@@ -137,12 +137,33 @@ func compileCall(f string, args []string, pos []string, opt bool, named bool) (c
 }
 
 // eval evaluates the compiled expression on the context that holds the dynamic arguments of args
-func (c *compiled) eval(args []string) (o outcome) {
+func (c *compiled) eval(args []string) (o outcome) { return c.evalHook(args, nil) }
+
+// hookCtx is a context whose reads call hook first (the points where an evaluation can be suspended
+// from outside: see shapes.go)
+type hookCtx struct {
+	expressions.KeyBuilderContextArray
+	hook func()
+}
+
+func (h *hookCtx) GetMatch(idx int) string {
+	h.hook()
+	return h.KeyBuilderContextArray.GetMatch(idx)
+}
+
+func (h *hookCtx) GetKey(key string) string {
+	h.hook()
+	return h.KeyBuilderContextArray.GetKey(key)
+}
+
+func (c *compiled) evalHook(args []string, hook func()) (o outcome) {
 	o.Template, o.Cerr, o.Panic = c.Template, c.Cerr, c.Panic
 	if c.Panic != "" {
 		return
 	}
-	ctx := &expressions.KeyBuilderContextArray{Elements: make([]string, len(args)), Keys: map[string]string{}}
+	hc := &hookCtx{hook: hook}
+	hc.Elements, hc.Keys = make([]string, len(args)), map[string]string{}
+	ctx := &hc.KeyBuilderContextArray
 	for i, a := range args {
 		if c.pos[i] == "c" || c.named {
 			ctx.Elements[i] = "\x01unused"
@@ -158,7 +179,11 @@ func (c *compiled) eval(args []string) (o outcome) {
 			o.Panic = fmt.Sprint(r)
 		}
 	}()
-	o.Got = c.kb.BuildKey(ctx)
+	if hook != nil {
+		o.Got = c.kb.BuildKey(hc)
+	} else {
+		o.Got = c.kb.BuildKey(ctx)
+	}
 	return
 }
 
@@ -308,7 +333,7 @@ func (rw *recWriter) write(f string, args []string, pos []string, o outcome, opt
 	}
 	rw.seen[k] = true
 	rec := record(f, args, pos, o, opt)
-	for _, key := range []string{"hist", "step", "goroutines"} { // integers only: TLC reads every field
+	for _, key := range []string{"hist", "step", "goroutines", "shape", "eval"} { // integers only: TLC reads every field
 		if v, has := extra[key]; has {
 			rec[key] = v
 		}
@@ -433,6 +458,9 @@ func c11Replay(argv []string) error {
 	in := fs.String("in", "", "vectors (ndjson, from ExprScalar_Gen)")
 	out := fs.String("out", "c11-replay.json", "result file")
 	tr := fs.String("trace", "", "also record every evaluation here (ndjson, for ExprScalar_Trace)")
+	shapesIn := fs.String("shapes", "", "evaluation shapes (ndjson, from ExprScalarHist_Gen)")
+	npools := fs.Int("pools", 2, "pools of calls per helper/arity/position pattern the shapes are realised on")
+	nest3 := fs.Int("nest3", 150, "shapes with 3 overlapping evaluations per pool")
 	fs.Parse(argv)
 	var rw *recWriter
 	if *tr != "" {
@@ -618,7 +646,18 @@ func c11Replay(argv []string) error {
 			}
 		}
 	}
-	vh.WriteJSON(*out, M{"vectors": vectors, "runs": runs, "distinct_nontrivial": nontrivial, "skipped_const": skippedConst,
+	var sst shapeStats
+	nshapes := 0
+	if *shapesIn != "" {
+		ss, err := loadShapes(*shapesIn)
+		if err != nil {
+			return err
+		}
+		nshapes = ss.n
+		sst = runShapes(ss, groups, groupOrder, judge, *npools, *nest3)
+	}
+	vh.WriteJSON(*out, M{"shapes": nshapes, "shape_pools": sst.Pools, "shape_serial_runs": sst.Serial, "shape_gated_runs": sst.Gated,
+		"shape_nested_runs": sst.Nested, "shape_evaluations": sst.Evals, "vectors": vectors, "runs": runs, "distinct_nontrivial": nontrivial, "skipped_const": skippedConst,
 		"deferred_to_tlc": deferred, "per_func": perFunc, "mismatches": mism, "mismatch_count": nmism, "samples": samples,
 		"history_expressions": histExprs, "history_steps": histSteps, "goroutine_observations": goRuns,
 		"records_written": rw.written(), "records_identical": rw.same()})
@@ -1027,7 +1066,8 @@ func c11Trace(argv []string) error {
 	}
 	defer rw.Close()
 	r := rnd{vh.NewRand(11)}
-	steps, exprs, goObs, goExprs := 0, 0, 0, 0
+	steps, exprs, goObs, goExprs, shapeRuns, shapeEvals := 0, 0, 0, 0, 0, 0
+	startWatchdog()
 	for steps < *n {
 		f := genOrder[exprs%len(genOrder)]
 		exprs++
@@ -1087,6 +1127,38 @@ func c11Trace(argv []string) error {
 			steps++
 			rw.write(f, cur, pos, o, opt, M{"hist": exprs, "step": st})
 		}
+		// random evaluation shapes (ExprScalarHist): 2-3 evaluations of the expression (and of a second
+		// compilation of its template) on visited contexts, advancing from context read to context read
+		// in a random order - in goroutines of their own and, with stack discipline, nested on one
+		if exprs%3 == 0 && len(visited) >= 2 {
+			insts := []*compiled{c, compileCall(f, args, pos, opt, c.named)}
+			k := len(dyn)
+			if k > 3 {
+				k = 3
+			}
+			for rep := 0; rep < 3; rep++ {
+				ne := 2 + r.Intn(2)
+				nested := rep == 2
+				grants := randomShape(r.Rand, ne, k, nested)
+				evs := make([][2]int, ne)
+				eargs := make([][]string, ne)
+				for x := range evs {
+					evs[x] = [2]int{1 + r.Intn(2), 0}
+					eargs[x] = visited[r.Intn(len(visited))]
+				}
+				runs := [][]outcome{runGated(insts, evs, grants, eargs)}
+				if nested {
+					runs = append(runs, runNested(insts, evs, grants, eargs))
+				}
+				for _, outs := range runs {
+					shapeRuns++
+					for x, o := range outs {
+						shapeEvals++
+						rw.write(f, eargs[x], pos, o, opt, M{"hist": exprs, "shape": rep, "eval": x + 1})
+					}
+				}
+			}
+		}
 		if exprs%6 == 0 && len(visited) >= 2 {
 			g := 2 + r.Intn(3)
 			if g > len(visited) {
@@ -1102,7 +1174,7 @@ func c11Trace(argv []string) error {
 		}
 	}
 	if *stats != "" {
-		vh.WriteJSON(*stats, M{"evaluations": steps, "expressions": exprs, "goroutine_expressions": goExprs,
+		vh.WriteJSON(*stats, M{"shape_runs": shapeRuns, "shape_evaluations": shapeEvals, "evaluations": steps, "expressions": exprs, "goroutine_expressions": goExprs,
 			"goroutine_observations": goObs, "records_written": rw.Written, "records_identical": rw.Same})
 	}
 	return nil
